@@ -71,24 +71,40 @@ func C07(c *fw.Ctx) {
 		{"x[i]=1", func(x, i func() *model.N) []*model.N {
 			return []*model.N{model.Var("t", x()), model.ExprS(model.IAsg(model.Id("t"), i(), num(1))), model.Print(model.Id("t"))}
 		}},
-		{"[1,2][x]", func(x, i func() *model.N) []*model.N { return []*model.N{model.Print(model.Idx(model.Arr(num(1), num(2)), x()))} }},
+		{"[1,2][x]", func(x, i func() *model.N) []*model.N {
+			return []*model.N{model.Print(model.Idx(model.Arr(num(1), num(2)), x()))}
+		}},
 		{"x.k", func(x, i func() *model.N) []*model.N { return []*model.N{model.Print(model.Prop(model.Grp(x()), "k"))} }},
 		{"x.k=i", func(x, i func() *model.N) []*model.N {
 			return []*model.N{model.Var("t", x()), model.ExprS(model.PAsg(model.Id("t"), "k", i())), model.Print(model.Id("t"))}
 		}},
 		{"x()", func(x, i func() *model.N) []*model.N { return []*model.N{model.Print(model.Call(model.Grp(x())))} }},
 		{"x(i)", func(x, i func() *model.N) []*model.N { return []*model.N{model.Print(model.Call(model.Grp(x()), i()))} }},
-		{"x(i,i)", func(x, i func() *model.N) []*model.N { return []*model.N{model.Print(model.Call(model.Grp(x()), i(), i()))} }},
+		{"x(i,i)", func(x, i func() *model.N) []*model.N {
+			return []*model.N{model.Print(model.Call(model.Grp(x()), i(), i()))}
+		}},
 		{"print", func(x, i func() *model.N) []*model.N {
 			return []*model.N{model.Print(x()), model.Print(model.Arr(x(), i())), model.Print(model.Obj([]string{"k"}, []*model.N{x()}))}
 		}},
-		{"concat", func(x, i func() *model.N) []*model.N { return []*model.N{model.Print(model.Bin("+", model.Str("s"), x()))} }},
-		{"concat-left", func(x, i func() *model.N) []*model.N { return []*model.N{model.Print(model.Bin("+", x(), model.Str("s")))} }},
+		{"concat", func(x, i func() *model.N) []*model.N {
+			return []*model.N{model.Print(model.Bin("+", model.Str("s"), x()))}
+		}},
+		{"concat-left", func(x, i func() *model.N) []*model.N {
+			return []*model.N{model.Print(model.Bin("+", x(), model.Str("s")))}
+		}},
 		{"len", func(x, i func() *model.N) []*model.N { return []*model.N{model.Print(model.CallN(model.BiLen, x()))} }},
-		{"append", func(x, i func() *model.N) []*model.N { return []*model.N{model.Print(model.CallN(model.BiAppend, x(), i()))} }},
-		{"remove", func(x, i func() *model.N) []*model.N { return []*model.N{model.Print(model.CallN(model.BiRemove, x(), i()))} }},
-		{"remove-from", func(x, i func() *model.N) []*model.N { return []*model.N{model.Print(model.CallN(model.BiRemove, model.Arr(num(1), num(2)), x()))} }},
-		{"delete", func(x, i func() *model.N) []*model.N { return []*model.N{model.Print(model.CallN(model.BiDelete, x(), i()))} }},
+		{"append", func(x, i func() *model.N) []*model.N {
+			return []*model.N{model.Print(model.CallN(model.BiAppend, x(), i()))}
+		}},
+		{"remove", func(x, i func() *model.N) []*model.N {
+			return []*model.N{model.Print(model.CallN(model.BiRemove, x(), i()))}
+		}},
+		{"remove-from", func(x, i func() *model.N) []*model.N {
+			return []*model.N{model.Print(model.CallN(model.BiRemove, model.Arr(num(1), num(2)), x()))}
+		}},
+		{"delete", func(x, i func() *model.N) []*model.N {
+			return []*model.N{model.Print(model.CallN(model.BiDelete, x(), i()))}
+		}},
 		{"keys", func(x, i func() *model.N) []*model.N {
 			return []*model.N{model.Print(model.CallN(model.BiKeys, x())), model.Print(model.CallN(model.BiValues, x()))}
 		}},
@@ -152,9 +168,15 @@ func C07(c *fw.Ctx) {
 		func() []*model.N { return []*model.N{model.Print(model.Bin("+", model.Str("s"), id("a")))} },
 		func() []*model.N { return []*model.N{model.Print(model.CallN(model.BiLen, id("a")))} },
 		func() []*model.N { return []*model.N{model.Print(model.CallN(model.BiAppend, id("a"), id("a")))} },
-		func() []*model.N { return []*model.N{model.Print(model.CallN(model.BiKeys, id("a"))), model.Print(model.CallN(model.BiValues, id("a")))} },
-		func() []*model.N { return []*model.N{model.Print(model.Arr(id("a"), model.Obj([]string{"k"}, []*model.N{id("a")})))} },
-		func() []*model.N { return []*model.N{model.If(id("a"), T("t"), nil), model.Print(model.Un("!", id("a")))} },
+		func() []*model.N {
+			return []*model.N{model.Print(model.CallN(model.BiKeys, id("a"))), model.Print(model.CallN(model.BiValues, id("a")))}
+		},
+		func() []*model.N {
+			return []*model.N{model.Print(model.Arr(id("a"), model.Obj([]string{"k"}, []*model.N{id("a")})))}
+		},
+		func() []*model.N {
+			return []*model.N{model.If(id("a"), T("t"), nil), model.Print(model.Un("!", id("a")))}
+		},
 		func() []*model.N { return []*model.N{model.Print(model.CallN(model.BiMin, id("a")))} },
 		func() []*model.N { return []*model.N{model.Print(model.CallN(model.BiRemove, id("a"), num(0)))} },
 	}
@@ -215,6 +237,35 @@ func C07(c *fw.Ctx) {
 			sane(c, model.Render(parenAll(prog)), "", fmt.Sprintf("heap-graph|%d", kinds), false)
 		}
 	}
+	// every built-in on every argument list of length 0, 1 and 2 over the operand alphabet (outcome only;
+	// the values are C17's business), plus emptied and one-element containers made at run time
+	{
+		extra := []operand{
+			{"emptied-array", func() *model.N { return model.CallN(model.BiRemove, model.Arr(model.Num(1)), model.Num(0)) }},
+			{"array-of-nil", func() *model.N { return model.Arr(model.Nil()) }},
+			{"array-of-arrays", func() *model.N { return model.Arr(model.Arr(), model.Arr()) }},
+			{"array-of-text", func() *model.N { return model.Arr(model.Str("a"), model.Str("")) }},
+			{"array-with-NaN", func() *model.N { return model.Arr(model.Num(1), model.Grp(model.Bin("-", inf(), inf()))) }},
+			{"array-of-object", func() *model.N { return model.Arr(model.Obj(nil, nil)) }},
+		}
+		all := append(append([]operand{}, ops...), extra...)
+		c.Bound("builtin_argument_alphabet", len(all))
+		for _, name := range model.Builtins {
+			if c.Mine() {
+				sane(c, model.Render(parenAll(append(c02Prelude(), model.Print(model.CallN(name))))), "line\n", "builtin-arguments|"+name+"|0", false)
+			}
+			for _, x := range all {
+				if c.Mine() {
+					sane(c, model.Render(parenAll(append(c02Prelude(), model.Print(model.CallN(name, x.Mk()))))), "line\n", "builtin-arguments|"+name+"|1", false)
+				}
+				for _, y := range all {
+					if c.Mine() {
+						sane(c, model.Render(parenAll(append(c02Prelude(), model.Print(model.CallN(name, x.Mk(), y.Mk()))))), "line\n", "builtin-arguments|"+name+"|2", false)
+					}
+				}
+			}
+		}
+	}
 	// names and expressions quoted by diagnostics: every fault form that mentions a name or prints an
 	// expression, with names of every length 1..70 and 100/200/300 over three alphabets (ASCII, Bangla,
 	// Bangla with combining marks) and receiver chains of 1..8 links
@@ -243,7 +294,9 @@ func C07(c *fw.Ctx) {
 			{"undefined-assign", func(n string) string { return n + " = 1;\n" }},
 			{"undefined-call", func(n string) string { return n + "(1);\n" }},
 			{"redeclare", func(n string) string { return model.KwVar + " " + n + " = 1;\n" + model.KwVar + " " + n + " = 2;\n" }},
-			{"missing-property", func(n string) string { return model.KwVar + " " + n + " = {k: 1};\n" + model.KwPrint + " " + n + ".zz;\n" }},
+			{"missing-property", func(n string) string {
+				return model.KwVar + " " + n + " = {k: 1};\n" + model.KwPrint + " " + n + ".zz;\n"
+			}},
 			{"missing-property-named", func(n string) string { return model.KwVar + " o = {k: 1};\n" + model.KwPrint + " o." + n + ";\n" }},
 			{"missing-property-assign-chain", func(n string) string { return model.KwVar + " o = {k: 1};\no." + n + ".k = 2;\n" }},
 			{"property-of-number", func(n string) string { return model.KwVar + " " + n + " = 5;\n" + model.KwPrint + " " + n + ".k;\n" }},
@@ -253,7 +306,9 @@ func C07(c *fw.Ctx) {
 			{"arity", func(n string) string { return model.KwFun + " " + n + "(p) {}\n" + n + "();\n" }},
 			{"parameter-arity", func(n string) string { return model.KwFun + " f(" + n + ") {}\nf(1, 2);\n" }},
 			{"operand", func(n string) string { return model.KwVar + " " + n + " = \"s\";\n" + model.KwPrint + " -" + n + ";\n" }},
-			{"delete-missing", func(n string) string { return model.KwVar + " o = {k: 1};\n" + model.BiDelete + "(o, \"" + n + "\");\n" }},
+			{"delete-missing", func(n string) string {
+				return model.KwVar + " o = {k: 1};\n" + model.BiDelete + "(o, \"" + n + "\");\n"
+			}},
 			{"string-in-message", func(n string) string { return model.KwPrint + " \"" + n + "\" - 1;\n" }},
 		}
 		for _, al := range alphabets {
